@@ -12,6 +12,7 @@ type deepInput struct {
 	How      string // how to regenerate it (the text itself can be megabytes)
 	Query    string
 	VarsJSON string
+	Solo     bool // deep enough to risk the stack: gets a process of its own
 }
 
 func nest(open, leaf, close string, n int) string {
@@ -32,9 +33,10 @@ func deepInputs(thorough bool) []deepInput {
 		{Name: "cycle_in_mutation", Query: `mutation { setName(id: 1, name: "x") { ...F } } fragment F on Item { parent { ...F } }`},
 		{Name: "cycle_same_alias_merge", Query: `{ a: items { ...F } a: items { ...F } } fragment F on Item { a: parent { ...F } a: parent { id ...F } }`},
 	}
-	depths := []int{1000, 10000, 100000}
+	// quick: 1e3 (shared child), 3e4 and two 1e6 inputs; thorough: 1e3, 1e4, 1e5, 1e6, 3e6
+	depths := []int{1000, 30000}
 	if thorough {
-		depths = append(depths, 1000000, 3000000)
+		depths = []int{1000, 10000, 100000, 1000000, 3000000}
 	}
 	for _, n := range depths {
 		how := fmt.Sprintf("n=%d", n)
@@ -69,6 +71,15 @@ func deepInputs(thorough bool) []deepInput {
 		}
 		wb.WriteString(" }")
 		ins = append(ins, deepInput{Name: fmt.Sprintf("wide_aliases_%d", n/10), How: fmt.Sprintf("%d aliases of kind", n/10), Query: wb.String()})
+	}
+	if !thorough {
+		n := 1000000
+		ins = append(ins,
+			deepInput{Name: fmt.Sprintf("nest_unknown_selection_%d", n), How: fmt.Sprintf("n=%d: '{a'*n + '}'*n", n), Query: nest("{a", "", "}", n)},
+			deepInput{Name: fmt.Sprintf("nest_list_value_%d", n), How: fmt.Sprintf("n=%d: '{ echo(s: ' + '['*n + ']'*n + ') }'", n), Query: "{ echo(s: " + nest("[", "", "]", n) + ") }"})
+	}
+	for i := range ins {
+		ins[i].Solo = len(ins[i].Query)+len(ins[i].VarsJSON) > 20000
 	}
 	return ins
 }
